@@ -28,7 +28,7 @@ def main():
             "engine": "xsmverif",
             "level_claimed": {
                 "category": m.LEVEL,
-                "text": getattr(m, "LEVEL_TEXT", "generated-input search against an explicit oracle; evidence of absence only within the stated bounds"),
+                "text": getattr(m, "LEVEL_TEXT", None) or ("generated-input search against an explicit oracle (evidence of absence only within the stated bounds): " + m.RULE),
                 "design_ref": f"DESIGN.md section 5 ({p})",
             },
             "level_note": "; ".join(getattr(m, "ASSUMPTIONS", [])),
